@@ -15,7 +15,8 @@ def queue_spec(seed, long_wait=False):
     vehicles = []
     for i in range(nv):
         r = rnd.choice([0.0, 0.001, 0.002, 0.004, rnd.uniform(0.0, 0.03), rnd.uniform(0.0, 0.03), rnd.uniform(0.0, 0.03)])
-        vehicles.append({"id": f"v{i:02d}", "lat": round(sl + rnd.choice([-1, 1]) * r, 6), "lon": round(so + rnd.choice([-1, 1]) * r, 6), "mech": "tiny", "soc": round(rnd.uniform(0.15, 0.3), 4)})
+        # (every second scenario numbers its vehicles without padding: "v10" sorts before "v9", as ids - strings - do)
+        vehicles.append({"id": f"v{i:02d}" if seed % 2 == 0 else f"v{i}", "lat": round(sl + rnd.choice([-1, 1]) * r, 6), "lon": round(so + rnd.choice([-1, 1]) * r, 6), "mech": "tiny", "soc": round(rnd.uniform(0.15, 0.3), 4)})
     full = seed % 4 == 2 and not long_wait
     if full:
         # a few vehicles that are full and stay full for a while (low idle drain below): a depot-style controller sends them
